@@ -377,3 +377,55 @@ def _region_only_updates(b, sw, f):
                     if not (st["place"]["l"] == 1 and [p for p in st["place"]["p"] if p != "deref"] == [f]):
                         return False
     return True
+
+
+def clone_faithful(rep, lib, rid="C12-CLONE-FAITHFUL"):
+    """Every Clone impl of the crate's own data types copies each field / variant payload into the same position."""
+    from lib.peval import PE
+    r = rep.rule(rid, "every `impl Clone` of the crate's data types (derived or hand-written) returns, for each variant, "
+                 "the same variant with every field a clone of the same field - a copy of a value, of a context or of "
+                 "the options is the value itself (rows are cloned when they are stored, grouped, merged, selected; "
+                 "options when the printer is built)", floor=10,
+                 analysis="A5 partial evaluation of each clone body with every field seeded to a distinct token and "
+                          "Clone::clone of a token answering that token")
+    for imp in lib.impls:
+        if (imp.get("trait") or "") != "std::clone::Clone":
+            continue
+        ty = imp.get("self") or ""
+        adt = lib.adts.get(ty.split("<")[0])
+        bodies = [lib.bodies.get(x) for x in imp.get("items", []) if x.endswith("::clone")]
+        if not adt or not bodies or bodies[0] is None:
+            continue
+        b = bodies[0]
+        key = "Clone for %s" % ty.rsplit("::", 1)[-1]
+        problems = []
+        for vi, v in enumerate(adt["variants"]):
+            toks = tuple(("tok", "field", vi, fi) for fi in range(len(v["fields"])))
+            selfv = ("adt", vi, toks)
+
+            def model(c, av, envv, pe):
+                cal = c.callee or ""
+                if cal in ("std::clone::Clone::clone", "std::borrow::ToOwned::to_owned") and av:
+                    x = pe._deref_all(envv, av[0])
+                    if x is not None:
+                        return (True, x)
+                return None
+            try:
+                res = PE(b, model, eq_ok=derived_eq_ok(lib), crate=lib).run(env={1: ("rv", selfv)})
+            except RuntimeError:
+                problems.append("variant %s: not evaluated" % v["name"])
+                continue
+            vals = {x for _, x in res.returns}
+            if vals != {selfv}:
+                got = sorted(str(x)[:120] for x in vals)
+                problems.append("a clone of %s%s is %s, not the same %s with each field cloned" % (
+                    ty.rsplit("::", 1)[-1], ("::" + v["name"]) if len(adt["variants"]) > 1 else "", got[:2],
+                    "variant" if len(adt["variants"]) > 1 else "struct"))
+        where = "%s:%d" % (imp["loc"]["file"], imp["loc"]["line"])
+        if problems:
+            r.bad(key, problems[0] + ("" if imp.get("derived") else " (hand-written impl)"), where)
+        else:
+            r.ok(key, "%s, %d variant(s): field-wise" % ("derived" if imp.get("derived") else "hand-written",
+                                                         len(adt["variants"])), where,
+                 nontrivial=not imp.get("derived"))
+    return r
